@@ -54,7 +54,7 @@ def permuted(draw, s: M.Schema) -> Tuple[M.Schema, bool]:
 
 @st.composite
 def case_codec(draw, tier: str):
-    s, name, vals = draw(CC.codec_case(tier, 4))
+    s, name, vals = draw(CC.codec_case(tier, 4, dup_ids=False))  # C15 presupposes distinct field ids
     s2, moved = draw(permuted(s))
     return "codec", s, s2, moved, name, vals
 
